@@ -6,6 +6,7 @@ package main
 import (
 	"fmt"
 	"go/ast"
+	"go/parser"
 	"go/token"
 	"go/types"
 	"os"
@@ -812,11 +813,66 @@ func (x *Exec) assignRecs(s *State, exprs []string, env *SpecEnv) map[string]wri
 			}
 			continue
 		}
+		if strings.HasPrefix(src, "reach(") && strings.HasSuffix(src, ")") {
+			// reach(e): every object reachable from the value of e through
+			// pointers, interface values, slices, maps and struct fields (depth 4)
+			// — "its own state", e.g. of a receiver of interface type
+			e, err := parser.ParseExpr(strings.TrimSuffix(strings.TrimPrefix(src, "reach("), ")"))
+			if err != nil {
+				env.errf("assigns: %s: %v", src, err)
+				continue
+			}
+			x.reachRecs(s, env.eval(e), map[int]bool{}, 0, out)
+			continue
+		}
 		for _, rec := range env.evalLoc(src) {
 			out[rec.key()] = rec
 		}
 	}
 	return out
+}
+
+// reachRecs collects the storage objects reachable from v (see havocReachable).
+func (x *Exec) reachRecs(s *State, v Val, seen map[int]bool, depth int, out map[string]writeRec) {
+	if depth > 4 {
+		return
+	}
+	add := func(o *Object) bool {
+		if o == nil || seen[o.id] {
+			return false
+		}
+		seen[o.id] = true
+		r := writeRec{obj: o}
+		out[r.key()] = r
+		return true
+	}
+	switch p := v.(type) {
+	case *PtrV:
+		if add(p.Obj) {
+			func() {
+				defer func() { recover() }()
+				x.reachRecs(s, x.load(s, p), seen, depth+1, out)
+			}()
+		}
+	case *SliceV:
+		add(p.Obj)
+	case *MapV:
+		add(p.Obj)
+	case *ChanV:
+		add(p.Obj)
+	case *StructV:
+		for _, f := range p.F {
+			x.reachRecs(s, f, seen, depth+1, out)
+		}
+	case *IfaceV:
+		if p.V != nil {
+			x.reachRecs(s, p.V, seen, depth+1, out)
+		}
+	case *FuncV:
+		for _, b := range p.Bind {
+			x.reachRecs(s, b, seen, depth+1, out)
+		}
+	}
 }
 
 // havocBinds: a closure may change what its captured variables point to,
